@@ -19,6 +19,7 @@ META = dict(
     required_hits=["slopes_fitted", "xif1_bitwise_compared", "kernel_evaluations", "path_slopes_fitted"],
     max_inconclusive_frac=0.15,
 )
+META["level_text"] += " Whole paths across a matching scale placed away from the quark mass are solved at fixed Mellin N by the runner itself (C50's captured plumbing) and the scale-varied result is compared with the central one (slope in lambda >= n-0.3, both schemes, light and heavy outputs)."
 
 NS_N = [complex(1.7, 0.9), complex(3.3, -2.1), complex(6.0, 4.0)]
 LAMS = {1: [1 / 8, 1 / 16, 1 / 32, 1 / 64], 2: [1 / 8, 1 / 16, 1 / 32, 1 / 64], 3: [1 / 8, 1 / 16, 1 / 32, 1 / 64], 4: [1 / 4, 1 / 8, 1 / 16, 1 / 32]}
